@@ -377,7 +377,75 @@ wf:
         got: <% [$.p, $.q, $.r] %>
 """
 
-DATA_SHAPES = {'data_flow': DATA_FLOW, 'data_flow_3': DATA_FLOW_3}
+# a variable first published INSIDE a branch (the other start task never
+# had it), re-published further down the same chain; a 3-way join gets the
+# old copy, the new copy and a context without it
+DATA_FLOW_CHAIN = """
+version: '2.0'
+wf:
+  output:
+    v: <% $.get(v, none) %>
+  tasks:
+    a:
+      action: std.noop
+      publish:
+        v: from_a
+      on-success: [a2, j]
+    a2:
+      action: std.noop
+      publish:
+        v: from_a2
+      on-success: j
+    c:
+      action: std.noop
+      publish:
+        w: from_c
+      on-success: j
+    j:
+      join: all
+      action: std.noop
+      publish:
+        got: <% [$.v, $.w] %>
+"""
+
+# a join after a join: v is born in branch a, passes j1, is re-published by
+# d; e carries the old copy to j2
+DATA_FLOW_JJ = """
+version: '2.0'
+wf:
+  output:
+    v: <% $.get(v, none) %>
+  tasks:
+    a:
+      action: std.noop
+      publish:
+        v: from_a
+      on-success: [j1, e]
+    b:
+      action: std.noop
+      on-success: j1
+    j1:
+      join: all
+      action: std.noop
+      on-success: d
+    d:
+      action: std.noop
+      publish:
+        v: from_d
+      on-success: j
+    e:
+      action: std.noop
+      on-success: j
+    j:
+      join: all
+      action: std.noop
+      publish:
+        got: <% $.v %>
+"""
+
+DATA_SHAPES = {'data_flow': DATA_FLOW, 'data_flow_3': DATA_FLOW_3,
+               'data_flow_chain': DATA_FLOW_CHAIN,
+               'data_flow_jj': DATA_FLOW_JJ}
 
 
 PAUSE_CMD_JOIN = """
